@@ -16,6 +16,16 @@ open AsynqModel
 /-- dispatch one case to the model of its mode -/
 def handleCase (mode : String) (id : Nat) (hdr body : List Sexp) : String :=
   match mode with
+  | "suspended" =>
+    -- a suspended AsyncTask completed from outside (possibly with a raising clean-up in its generator): the outcome is
+    -- the outside one (read twice), every subscriber is notified exactly once, in order, seeing that outcome
+    match hdr, body with
+    | [.atom outside, _, n], [.list [.atom "result", .atom o1, .atom o2, .list seen]] =>
+      let want := if outside == "value" then "val" else "err"
+      let expSeen := (List.range (n.nat?.getD 0)).map fun i => Sexp.atom s!"{i}:{want}"
+      if o1 == want && o2 == want && seen == expSeen then s!"R {id} CORR=ok SPEC=ok SPECM=ok | "
+      else s!"R {id} CORR=diff SPEC=fail:outside-completion-{o1}-{o2}-notified-{seen.length}-of-{expSeen.length} SPECM=ok | expected outcome {want} twice and notifications {Sexp.list expSeen}, got {Sexp.list seen}"
+    | _, _ => s!"R {id} CORR=diff SPEC=ok SPECM=ok | unparsable suspended case"
   | "cancelfam" =>
     -- a batch with blocked tasks is cancelled by a sibling: it is never flushed (events: only batch B's
     -- before/body/after, exactly once, in that order), the waiters get the cancellation error, the scheduler is clean
